@@ -483,8 +483,22 @@ func main() {
 			runs = append(runs, run{P: p, Mode: m})
 		}
 		nd, ns := len(p.Decls), len(p.Stmts)
-		for dm := 0; dm < 1<<(nd-1); dm++ {
+		// statement cuts: all of them up to 5 cut points; beyond (two multi-statement items in sequence) no cut, every
+		// cut, each single cut and each single missing cut (reported in the rule; memory, not time, is the limit)
+		var smasks []int
+		if ns-1 <= 5 {
 			for sm := 0; sm < 1<<(ns-1); sm++ {
+				smasks = append(smasks, sm)
+			}
+		} else {
+			all := 1<<(ns-1) - 1
+			smasks = append(smasks, 0, all)
+			for b := 0; b < ns-1; b++ {
+				smasks = append(smasks, 1<<b, all&^(1<<b))
+			}
+		}
+		for dm := 0; dm < 1<<(nd-1); dm++ {
+			for _, sm := range smasks {
 				// interactive input is a list of declarations or a list of statements: a chunk that starts with a var
 				// declaration and goes on with statements is neither (the front end reads it as declarations)
 				mixed := false
@@ -627,7 +641,7 @@ func main() {
 	r.Set("distinct_nontrivial", len(res.Sets["outputs"]))
 	r.Set("whole_programs_rejected_runs", res.Counts["whole_program_rejected"])
 	r.Set("exhaustive", true)
-	r.Set("rule", fmt.Sprintf("programs = every dependency-closed subset of <= %d of 18 declaration items (define-before-use order) x every sequence (24 statement items, incl. blocks that shadow a global and var statements in the middle of a chunk used by later chunks) of <= %d applicable statements + a final Show of all declared globals; every cut of the declaration section and of the statement section into consecutive chunks x {successive Eval, Compile+Execute, CompileAST+Execute}; whole program through Compile+Execute, CompileAST, EvalPath on disk and on MapFS; every cut of the declaration section written as the files of one package directory (file names in chunk order and in reverse chunk order, main in the last / first file) and loaded by EvalPath(dir) on disk and on MapFS; reference = Eval of the whole program in a fresh interpreter; states = distinct whole-program outputs", maxD, maxS))
+	r.Set("rule", fmt.Sprintf("programs = every dependency-closed subset of <= %d of 18 declaration items (define-before-use order) x every sequence (24 statement items, incl. blocks that shadow a global and var statements in the middle of a chunk used by later chunks) of <= %d applicable statements + a final Show of all declared globals; every cut of the declaration section and of the statement section into consecutive chunks (statement sections with more than 5 cut points: no cut, every cut, each single cut, each single missing cut) x {successive Eval, Compile+Execute, CompileAST+Execute}; whole program through Compile+Execute, CompileAST, EvalPath on disk and on MapFS; every cut of the declaration section written as the files of one package directory (file names in chunk order and in reverse chunk order, main in the last / first file) and loaded by EvalPath(dir) on disk and on MapFS; reference = Eval of the whole program in a fresh interpreter; states = distinct whole-program outputs", maxD, maxS))
 	r.Assumptions = []string{"a chunk is either declarations or statements (declarations precede statements); forward references across a cut are not demanded", "reference = the whole program evaluated once (C01 binds that to the compiler)"}
 	for _, i := range []int{0, len(runs) / 2, len(runs) - 1} {
 		r.Sample(map[string]interface{}{"program": runs[i].P.Name, "mode": runs[i].Mode, "decl_cuts": runs[i].DMask, "stmt_cuts": runs[i].SMask, "decls": runs[i].P.Decls, "stmts": runs[i].P.Stmts})
